@@ -313,6 +313,7 @@ func SchedMode(maxPreempt int) {}
 func EagerSpawn(on bool)       {}
 func ExploreOrder(on bool)     {}
 func Drain()                   {}
+func QlzBoth()                 {}
 func KillOthers()              {}
 func Yield(label string)       {}
 func DeadlockIsViolation()     {}
